@@ -231,7 +231,7 @@ func genC02(dir, tier string, seed int64) {
 	meta.GoOnly = append(meta.GoOnly, effectsAll)
 
 	// ---- stream 2: histories of Runs on one Model vs a fresh Model ----
-	hist := goOnlyResult{Stream: "C02_histories", Rule: "single-node models from every fixture (trailing inputs as initializers: weights, biases, initial states, axes, shapes; each also in the variant where those initializers are declared graph inputs, i.e. defaults that some calls of the history override with other values and other calls leave out) + the loadable sample models: histories of 2..6 Runs on ONE Model (same input objects re-used, fresh copies, interleaved failing calls: missing input, wrong rank); every Run compared bit for bit with the same call on a freshly loaded Model; caller tensors and Model parameters (through the verif hook) snapshotted before/after every Run", Violations: []string{}}
+	hist := goOnlyResult{Stream: "C02_histories", Rule: "single-node models from every fixture (trailing inputs as initializers: weights, biases, initial states, axes, shapes; each also in the variant where those initializers are declared graph inputs, i.e. defaults that some calls of the history override with other values and other calls leave out) + the loadable sample models: histories of 2..6 Runs on ONE Model (same input objects re-used, the same objects refilled in place with other contents -- inputs and overriding weights alike --, fresh copies, interleaved failing calls: missing input, wrong rank); every Run compared bit for bit with the same call on a freshly loaded Model; caller tensors and Model parameters (through the verif hook) snapshotted before/after every Run", Violations: []string{}}
 	nHist := 2
 	if tier == "thorough" {
 		nHist = 40
@@ -289,11 +289,19 @@ func genC02(dir, tier string, seed int64) {
 				}
 				p0 := paramSnap(shared)
 				reused := fm.mkInputs()
+				var reusedOv gonnx.Tensors
 				steps := 2 + r.Intn(5)
 				for s := 0; s < steps; s++ {
-					kind := r.Intn(6)
+					kind := r.Intn(8)
 					var in gonnx.Tensors
 					switch {
+					case kind >= 6: // the very same tensor objects again, REFILLED in place with other contents
+						var ts []tensor.Tensor
+						for _, t := range reused {
+							ts = append(ts, t)
+						}
+						rotateInPlace(ts)
+						in = reused
 					case kind <= 1:
 						in = reused // the very same tensor objects again
 					case kind <= 3:
@@ -314,7 +322,19 @@ func genC02(dir, tier string, seed int64) {
 						for k, t := range in {
 							cp[k] = t
 						}
-						for k, t := range fm.mkOverrides() {
+						if reusedOv == nil {
+							reusedOv = fm.mkOverrides()
+						}
+						ov := fm.mkOverrides()
+						if r.Intn(2) == 0 { // the same override objects as in an earlier call, refilled in place
+							var ts []tensor.Tensor
+							for _, t := range reusedOv {
+								ts = append(ts, t)
+							}
+							rotateInPlace(ts)
+							ov = reusedOv
+						}
+						for k, t := range ov {
 							cp[k] = t
 						}
 						in = cp
@@ -346,7 +366,7 @@ func genC02(dir, tier string, seed int64) {
 						if t, ok := pristine[k]; ok && before[k] == snapT(t) {
 							fin[k] = t
 						} else {
-							fin[k] = in[k] // perturbed tensors (wrong rank) are passed as they are
+							fin[k] = in[k].Clone().(tensor.Tensor) // perturbed (wrong rank) or refilled tensors: a copy of what was passed
 						}
 					}
 					fout, ferr, _ := runRec(fresh, fin)
